@@ -128,10 +128,18 @@ class WriterWalk(object):
     def run_method(self, name, env):
         def key_of(v):
             if isinstance(v, Lit):
-                return ('L', v.vals)
+                return ('L', tuple(sorted(v.vals)))
             if isinstance(v, AL):
-                return ('A', id(v))
+                return ('A', tuple(sorted(v.names)))
             return 'U'
+        if name.startswith('_append_'):
+            # these MUTATE the attribute list they are handed: never skipped (they do not recurse).
+            # (Keying on id(list) was not deterministic: ids of collected lists are reused.)
+            self.block(self.methods[name].body, env)
+            return
+        # `_write_*` methods only copy the lists they receive (`list(extra_attrs)`, `attrs.extend(extra_attrs)`):
+        # the same method with the same literal arguments, the same list CONTENT and the same enclosing element
+        # emits the same things again
         key = (name, tuple(sorted((k, key_of(v)) for k, v in env.items())),
                tuple(sorted(self.stack[-1])) if self.stack else ())
         if key in self.seen:
